@@ -6,7 +6,7 @@ from vlib.engine import Disc, Outcome
 
 PID = 'C06'
 RULE = ('Hypothesis: stream of 1..5 reference-built valid frames (mixed message kinds incl. exception responses, one hosted '
-        'unit, spec-built PDUs) on tcp / rtu / ascii / binary x request or response direction, and a chunking: whole, every k '
+        'unit, spec-built PDUs; one frame in six is addressed to ANOTHER unit and has to be stepped over) on tcp / rtu / ascii / binary x request or response direction, and a chunking: whole, every k '
         'bytes, explicit cut sets (biased to header interiors and frame boundaries +-1, empty reads included), or a bit mask '
         'over all cut positions. Oracle (metamorphic): baseline = one frame per call into a fresh framer, recording through a '
         'decoder proxy the exact (PDU bytes, unit, tid, pid) delivered; the chunked delivery into another fresh framer must '
@@ -33,7 +33,11 @@ def _case(draw):
         if kind == 'rsp:8' and f['sub'] == 4:
             f = {'sub': 10, 'data': [0]}
         pdu = specpdu.encode(kind, f)
-        frames.append({'tid': draw(gens.u16()), 'pdu': pdu.hex()})
+        fr_ = {'tid': draw(gens.u16()), 'pdu': pdu.hex()}
+        if draw(st.integers(0, 5)) == 0:
+            # traffic of another unit on the same line / connection: a valid frame this receiver has to step over
+            fr_['foreign'] = draw(st.sampled_from([1, 2, 9, 0x30, 200, 246]))
+        frames.append(fr_)
     total = sum(_flen(framing, len(fr['pdu']) // 2) for fr in frames)
     cut = draw(st.one_of(gens.cuts(), gens.cuts(),
                          st.tuples(st.just('mask'), st.integers(0, (1 << min(total, 60)) - 1)).map(list),
@@ -127,13 +131,18 @@ def deliver(framing, direction, uid, chunks):
 def run_case(case):
     framing, direction, uid = case['framing'], case['dir'], case['uid']
     labels = ['framing:' + framing, 'dir:' + direction, 'frames:%d' % len(case['frames'])]
-    frames = [refframe.build(framing, uid, bytes.fromhex(f['pdu']), f['tid'], 0) for f in case['frames']]
+    def unit_of(f):
+        u = f.get('foreign')
+        return uid if u is None or u == uid or uid in (0, 255) else u
+    frames = [refframe.build(framing, unit_of(f), bytes.fromhex(f['pdu']), f['tid'], 0) for f in case['frames']]
+    if any(unit_of(f) != uid for f in case['frames']):
+        labels.append('foreign-unit-frames')
     stream = b''.join(frames)
     bounds = [0]
     for f in frames:
         bounds.append(bounds[-1] + len(f))
     base, berr, bleft = deliver(framing, direction, uid, frames)
-    want = [(f['pdu'], uid, f['tid'] if framing == 'tcp' else None, 0 if framing == 'tcp' else None) for f in case['frames']]
+    want = [(f['pdu'], uid, f['tid'] if framing == 'tcp' else None, 0 if framing == 'tcp' else None) for f in case['frames'] if unit_of(f) == uid]
     if berr is not None or base != want:
         return Outcome([], labels + ['excluded-baseline-not-clean'], False)
     chunks = chunks_of(stream, case['cut'], bounds)
